@@ -38,9 +38,9 @@ Definition state_of_dump fkeys atoms opaqs pkeys preds aw_ ap_ consts : state :=
 Definition export_case (L : mlogic) (st : state) (d : xdata) :=
   (state_wfb L st, xdata_diff (export L st) d).
 
-Definition export_case_ops (fixed : bool) (L : mlogic) (os : list op) (cord : list nat)
+Definition export_case_ops (L : mlogic) (os : list op) (cord : list nat)
            (pordl : list (nat * list pred)) (d : xdata) : nat :=
-  match (if fixed then run_fixed else run) L cord (pord_of pordl) os with
+  match run L cord (pord_of pordl) os with
   | None => 99
   | Some st => xdata_diff (export L st) d
   end.
